@@ -11,7 +11,7 @@
    Where several patterns match, the model prefers static over parameter over catch-all at the first segment where
    they differ (the README's table needs that for /debug/pprof/cmdline next to the pprof catch-all); the real tree does
    not backtrack, so on overlapping route sets it may answer differently: compared as drift, not judged. *)
-EXTENDS Naturals, Sequences, FiniteSets, TLC
+EXTENDS Naturals, Sequences, FiniteSets, TLC, Json
 
 CONSTANTS RouteSets, Mut
 CONSTANT PathsOf(_)
@@ -36,7 +36,7 @@ Matches(r, p)    == MatchFrom(r, p, 1, Mut)
 
 Bind(r, p) ==
     {<<r[i], p[i]>> : i \in {j \in 1..Len(r) : IsParam(r[j]) /\ j <= Len(p)}}
-    \cup (IF Len(r) > 0 /\ IsWild(r[Len(r)]) THEN {<<"*", SubSeq(p, Len(r), Len(p))>>} ELSE {})
+Rest(r, p) == IF Len(r) > 0 /\ IsWild(r[Len(r)]) THEN SubSeq(p, Len(r), Len(p)) ELSE <<>>
 
 \* r1 is preferred to r2: more specific at the first segment where their kinds differ
 Better(r1, r2) ==
@@ -44,20 +44,20 @@ Better(r1, r2) ==
                           /\ \A j \in 1..(i - 1) : Kind(r1[j]) = Kind(r2[j])
                           /\ Kind(r1[i]) < Kind(r2[i])
 
-None == [route |-> <<>>, params |-> {}, n |-> 0]
+None == [route |-> <<>>, params |-> {}, rest |-> <<>>, n |-> 0]
 
 Route(R, p) ==
     LET M  == {r \in R : Matches(r, p) /\ ~(Mut = "drop-wild" /\ IsWild(r[Len(r)]))}
         MD == {r \in R : MatchesDoc(r, p)}
     IN IF M = {}
-       THEN IF Mut = "phantom" /\ R # {} THEN LET r == CHOOSE r \in R : TRUE IN [route |-> r, params |-> {}, n |-> 0] ELSE None
+       THEN IF Mut = "phantom" /\ R # {} THEN LET r == CHOOSE r \in R : TRUE IN [route |-> r, params |-> {}, rest |-> <<>>, n |-> 0] ELSE None
        ELSE LET best == CHOOSE r \in M : \A r2 \in M \ {r} : Better(r, r2) \/ ~Better(r2, r)
-            IN [route |-> best, params |-> Bind(best, p), n |-> Cardinality(MD)]
+            IN [route |-> best, params |-> Bind(best, p), rest |-> Rest(best, p), n |-> Cardinality(MD)]
 
 Init == /\ rs \in RouteSets
         /\ path \in PathsOf(rs)
         /\ out = Route(rs, path)
-        /\ PrintT(<<"CASE", rs, path, out>>)
+        /\ PrintT(ToJson([kase |-> "CASE", routes |-> rs, path |-> path, out |-> out]))
 Next == UNCHANGED vars
 Spec == Init /\ [][Next]_vars
 
@@ -65,9 +65,9 @@ Matching == {r \in rs : MatchesDoc(r, path)}
 (* whatever serves the request is a pattern that matches it *)
 Sound        == out.route # <<>> => (out.route \in rs /\ MatchesDoc(out.route, path))
 (* a request that matches exactly one documented pattern reaches it, with the parameters the pattern binds *)
-UniqueRouted == Cardinality(Matching) = 1 => (out.route \in Matching /\ out.params = Bind(out.route, path))
+UniqueRouted == Cardinality(Matching) = 1 => (out.route \in Matching /\ out.params = Bind(out.route, path) /\ out.rest = Rest(out.route, path))
 (* a request that matches no pattern is not served (404) *)
 NoMatchNone  == Matching = {} => out.route = <<>>
 (* a parameter binds exactly one segment *)
-ParamOneSegment == \A b \in out.params : b[1] # "*" => b[2] \in {path[i] : i \in 1..Len(path)}
+ParamOneSegment == \A b \in out.params : b[2] \in {path[i] : i \in 1..Len(path)}
 =============================================================================
